@@ -27,6 +27,7 @@ class Driver:
         self.rng = random.Random(seed)
         self.world = envmod.JobWorld(outcome)
         self.net = []            # in-flight job messages: dict(key, msg, sent)
+        self.delivered = []      # every message ever delivered (for late re-deliveries)
         self.policy = dict(p_dup=0.0, p_delay=0.0, p_start_first=0.0, max_iters=400, p_env=0.7)
         self.policy.update(policy or {})
         self.run_opts = run_opts or {}
@@ -36,6 +37,7 @@ class Driver:
         self.result = RunResult()
         self.incarnation = 0
         self.idle_iters = 0
+        self.n_polls = 0
 
     # ------------------------------------------------------------------ set-up
     def _prepare_dirs(self):
@@ -70,6 +72,9 @@ class Driver:
         self.pool = envmod.FakePool.current
         self.pool.on_put = self._on_put
         self.pool.on_drain = self._drain
+        self.pool.on_process = self._on_process
+        import cylc.flow.commands as _cm
+        _cm.sleep = lambda *_a: None   # reload waits with real sleeps between its polling rounds
         TR.emit("boot", restart=bool(schd.is_restart), n=self.incarnation, sync=instrument.sync_proj(schd))
         if schd.is_restart:
             await self._restart_prelude()
@@ -88,6 +93,16 @@ class Driver:
                     pre.append(itask)
             schd.start_job_submission(pre)
 
+    def routine_poll(self):
+        """What the submission/execution polling intervals do: poll every task that has a job out."""
+        itasks = [t for t in self.schd.pool.get_tasks() if t.state("submitted", "running")]
+        if not itasks or self.n_polls >= 25:
+            return False
+        self.n_polls += 1
+        TR.emit("routine_poll", ids=[instrument.tid(t) for t in itasks])
+        self.schd.task_job_mgr.poll_task_jobs(itasks)
+        return True
+
     async def settle_after_restart(self):
         """Answer the restart poll (from the true job states), run one iteration, and log the restored state."""
         for cmd in list(self.pool.pending):
@@ -97,6 +112,13 @@ class Driver:
         if r is None:
             TR.emit("restored", sync=instrument.sync_proj(self.schd), db=self.db_readback())
         return r
+
+    def _on_process(self):
+        # while a reload is flushing preparing tasks, the pool completes the pending job submissions
+        if self.schd is not None and getattr(self.schd, "reload_pending", False):
+            for cmd in list(self.pool.pending):
+                if cmd.kind == "jobs-submit":
+                    self.answer(cmd)
 
     def _drain(self):
         for cmd in list(self.pool.pending):
@@ -132,6 +154,8 @@ class Driver:
                 continue
             seen.add(m["key"])
             acts.append(("deliver", i))
+        if self.policy.get("p_redeliver") and self.delivered and self.rng.random() < self.policy["p_redeliver"]:
+            acts.append(("redeliver", self.rng.randrange(len(self.delivered))))
         return acts
 
     def do_env(self, act):
@@ -146,6 +170,10 @@ class Driver:
             self.job_step(arg)
         elif kind == "deliver":
             self.deliver(arg)
+        elif kind == "redeliver":
+            m = self.delivered[arg]
+            self.net.append({"key": m["key"], "msg": m["msg"], "dups": 2, "late": True})
+            self.deliver(len(self.net) - 1)
 
     def _cmd(self, n):
         for c in self.pool.pending:
@@ -230,6 +258,8 @@ class Driver:
         else:
             self.net.pop(i)
         point, name, sub = m["key"]
+        if not m.get("late"):
+            self.delivered.append({"key": m["key"], "msg": m["msg"]})
         tokens = Tokens(cycle=point, task=name, job=str(sub))
         severity = "CRITICAL" if m["msg"].startswith("failed") else "INFO"
         self.schd.message_queue.put(TaskMsg(tokens, TS, severity, m["msg"]))
@@ -352,6 +382,8 @@ async def run_to_end(drv: Driver, hooks=None):
             busy = did or any(e["e"] not in ("loop_begin", "loop_end", "rh_compute", "db_commit", "q_release")
                               for e in TR.events[n_before:])
             quiet = 0 if (busy or acts) else quiet + 1
+            if quiet == 2 and drv.routine_poll():
+                quiet = 0
             if quiet >= 3:
                 res.end = "stalled" if drv.schd.is_stalled else "quiescent"
                 TR.emit("quiescent", stalled=bool(drv.schd.is_stalled), sync=instrument.sync_proj(drv.schd))
@@ -387,6 +419,7 @@ async def run_plan(drv: Driver, plan: dict):
     iters = 0
     quiet = 0
     stop_requested = False
+    reacted = set()
     try:
         try:
             await drv.boot()
@@ -417,6 +450,12 @@ async def run_plan(drv: Driver, plan: dict):
                     if drv.schd is not None and drv.schd.stop_mode is None:
                         await drv.stop_cmd(stop["mode"])
                     stop_requested = True
+                if plan.get("react_retry_trigger") and drv.schd is not None:
+                    for itask in drv.schd.pool.get_tasks():
+                        if (itask.state("waiting") and instrument._try(itask, "execution") > 0
+                                and itask.identity not in reacted and drv.rng.random() < 0.7):
+                            reacted.add(itask.identity)
+                            await drv.cmd("force_trigger_tasks", tasks=[itask.identity], flow=[])
                 reason = await drv.loop_once()
                 if reason is not None:
                     if stop_requested and stop and stop.get("restart", True) and reason != "AUTOMATIC":
@@ -446,6 +485,8 @@ async def run_plan(drv: Driver, plan: dict):
             busy = did or any(e["e"] not in ("loop_begin", "loop_end", "rh_compute", "db_commit", "q_release")
                               for e in TR.events[n_before:])
             quiet = 0 if (busy or acts) else quiet + 1
+            if quiet == 2 and drv.routine_poll():
+                quiet = 0
             if quiet >= 3:
                 res.end = "stalled" if drv.schd.is_stalled else "quiescent"
                 TR.emit("quiescent", stalled=bool(drv.schd.is_stalled), sync=instrument.sync_proj(drv.schd))
@@ -505,6 +546,7 @@ def execute(flow_text, outcome, seed, home, *, policy=None, run_opts=None, runne
     logging.disable(logging.CRITICAL)
     TR.events = []
     TR.ctx = []
+    TR.parents = []
     TR.enabled = True
     drv = Driver(flow_text, home, outcome, seed, policy=policy, run_opts=run_opts, name=name)
     async def main():
